@@ -15,9 +15,16 @@ def escape_docstring_text(text: str) -> str:
     """Make free text safe inside a triple-double-quoted docstring.
 
     Backslashes are doubled (so the docstring evaluates to the original text and a trailing backslash
-    cannot escape the closing quotes) and every triple quote is broken up.
+    cannot escape the closing quotes), every triple quote is broken up and a final double quote is escaped.
     """
-    return text.replace("\\", "\\\\").replace('"""', '\\"\\"\\"')
+    escaped = text.replace("\\", "\\\\").replace('"""', '\\"\\"\\"')
+    # A final double quote would merge with the closing delimiter (`...ends with "quote""""`): escape it,
+    # unless it already is (an odd number of backslashes in front of it)
+    if escaped.endswith('"'):
+        body = escaped[:-1]
+        if (len(body) - len(body.rstrip("\\"))) % 2 == 0:
+            escaped = body + '\\"'
+    return escaped
 
 
 class DocumentationBlock:
